@@ -305,6 +305,54 @@ def impure_component(f, tj, path=''):
     return 'type %s not known to be plain owned data' % tj.get('s', t)
 
 
+def _manual_clone_not_fieldwise(f, m, ci, adt):
+    """None when the hand-written clone() returns, on every path, a literal of Self whose every field is `self.<same field>` copied or passed
+    to Clone::clone (private helpers inlined, `*self` destructured); else the reason"""
+    if len(adt['variants']) != 1:
+        return 'not a struct (variants are not compared)'
+    from paths import all_path_facts
+    cp = m.impl_fn_path(ci, 'clone')
+    b = m.body_inlined(cp, prefer_mono=False) if cp else None
+    if b is None:
+        return 'no body for clone()'
+    names = [x['name'] for x in adt['variants'][0]['fields']]
+
+    def strip(t):
+        while isinstance(t, tuple) and t and t[0] in ('ref', 'deref'):
+            t = t[1]
+        return t
+
+    def same_field(t, nm, depth=0):
+        t = strip(t)
+        if depth > 4 or not isinstance(t, tuple) or not t:
+            return False
+        if t[0] == 'field' and t[2] == nm and strip(t[1])[:2] == ('arg', 1):
+            return True
+        if t[0] == 'call' and t[2] and (t[4].endswith('Clone::clone') or t[4].endswith('::clone') or t[4].endswith('::to_owned') or t[4].endswith('::into_boxed_slice')
+                                        or t[4].endswith('::to_vec') or t[4].endswith('::into')):
+            return same_field(t[2][0], nm, depth + 1)
+        return False
+    seen = 0
+    for pf in all_path_facts(b):
+        if not pf.returns:
+            continue
+        rt = pf.ret
+        if not (rt and rt[0] == 'agg' and rt[1] == 'adt' and rt[2] == adt['path']):
+            # `*self` of a Copy type
+            if rt is not None and strip(rt)[:2] == ('arg', 1):
+                seen += 1
+                continue
+            return 'clone() does not return a literal of the type'
+        seen += 1
+        got = dict(zip(rt[4], rt[3]))
+        for nm in names:
+            if nm not in got:
+                return 'field `%s` is not set' % nm
+            if not same_field(got[nm], nm):
+                return 'field `%s` is built from %s' % (nm, tree_str(got[nm])[:60])
+    return None if seen else 'no returning path'
+
+
 def s10_state_purity(ctx):
     f = ctx.facts('default')
     m = Model(f)
@@ -332,7 +380,11 @@ def s10_state_purity(ctx):
         if ci is None:
             r.violate(short + '|no-Clone', '%s has no Clone impl' % short, adt['file'], adt['line'])
         elif not ci['derived']:
-            r.violate(short + '|manual-Clone', '%s implements Clone by hand: field-wise copy is not guaranteed' % short, ci['file'], ci['line'])
+            why_not = _manual_clone_not_fieldwise(f, m, ci, adt)
+            if why_not:
+                r.violate(short + '|manual-Clone', '%s implements Clone by hand and the copy is not field-wise: %s' % (short, why_not), ci['file'], ci['line'])
+            else:
+                r.sample({'type': short, 'Clone': 'hand-written, every field is the clone / copy of the same field of self'})
     for st in f.statics:
         r.inst('static|' + st['path'])
         if st['mutable']:
